@@ -169,6 +169,13 @@ func craftedTables(c *ctx, n int) [][]byte {
 		if c.rng.Intn(4) == 0 {
 			restarts = append(restarts, c.rng.Intn(1<<uint(1+c.rng.Intn(23))))
 		}
+		if c.rng.Intn(3) == 0 {
+			// a restart offset at / next to the end of the record area (= the start of the restart table)
+			end := 28 + len(p)
+			b := end + c.rng.Intn(3) - 1
+			pos := c.rng.Intn(len(restarts) + 1)
+			restarts = append(restarts[:pos], append([]int{b}, restarts[pos:]...)...)
+		}
 		szDelta := 0
 		if c.rng.Intn(5) == 0 {
 			szDelta = c.rng.Intn(9) - 4
